@@ -80,6 +80,33 @@ CHECK_DEADLOCK FALSE
     if gates["add.checked"] == 0 or (gates["mark.written"] == 0 and gates["blocked"] == 0):
         raise Inconclusive("vacuity: the scheduling gates (hook H7) were never reached: %s" % dict(gates))
     runs = [mc, atomic, ascoded, sched_run, gen]
+    # the clause "removed by a reorg -> pending again, new chain -> executed" through the chain's own
+    # bookkeeping, including a process death before every store write of the reorg and the restart:
+    # block trees with transactions from BlockStoreGen, replayed on the real chain + pool by the c05
+    # driver, judged by BlockStoreTrace; only the pool clauses are verdicts here (the store clauses
+    # belong to C05)
+    import random
+    import C05
+    rng = random.Random(ctx.seed)
+    gen5, scs = C05.gen_scenarios(ctx, 3, 3, False, forks=False)
+    runs.append(gen5)
+    reorg_tx = [s_ for s_ in scs if s_["feat"]["maxRem"] >= 1 and any(b["txs"] for b in s_["tree"])]
+    feat = lambda s_: (s_["feat"]["maxRem"], tuple(sorted(set(s_["feat"]["res"]))), tuple(bool(b["txs"]) for b in s_["tree"]))
+    sel, _ = C05.stratified(reorg_tx, 10 if quick else 80, rng, feat)
+    drv5 = ctx.build("c05")
+    sp5 = os.path.join(ctx.scratch, "scen-reorg.json")
+    json.dump([{"tree": s_["tree"], "order": s_["order"]} for s_ in sel], open(sp5, "w"))
+    tp5 = os.path.join(ctx.scratch, "trace-reorg.ndjson")
+    p5 = ctx.run([drv5, "batch", "--scen", sp5, "--out", tp5, "--scratch", os.path.join(ctx.scratch, "st-reorg"),
+                  "--crash", "all", "--par", "16"], timeout=3000)
+    st5 = dict(kv.split("=") for kv in [l for l in p5.stdout.splitlines() if l.startswith("c05:")][-1].split()[1:])
+    n5, bad5 = ctx.validate_trace("BlockStoreTrace", tp5, timeout=2400)
+    pool_tags = ("Inv.ExecutedAgrees", "Inv.RemovedTxsPending")
+    add_violations_from_bad(ctx, [b for b in bad5 if b[2] in pool_tags], tp5, what_prefix="reorg/crash family: ",
+                            verdict=lambda t: t in pool_tags)
+    total += n5
+    if int(st5["crashruns"]) == 0:
+        raise Inconclusive("vacuity: no crash inside a reorg with transactions was exercised")
     coverage = {
         "states": sum(r["distinct"] for r in runs),
         "transitions": sum(r["generated"] for r in runs),
@@ -89,6 +116,8 @@ CHECK_DEADLOCK FALSE
         "tlc_generated_histories": len(hists),
         "tlc_generated_schedules": len(scheds),
         "events_by_kind": dict(kinds),
+        "reorg_scenarios_with_transactions": len(sel),
+        "reorg_crash_restart_cycles": int(st5["crashruns"]),
         "gate_outcomes": dict(gates),
         "unlocked_model_violates_at_most_once": bool(ascoded["error"]),
         "samples": samples,
@@ -100,5 +129,6 @@ CHECK_DEADLOCK FALSE
         "concurrency: every interleaving of the pool's unlocked critical sections for two overlapping calls (Add with Add/Mark/UnMark of the same transaction) "
         "is enumerated by TLC and replayed with the gate hook; schedules of three or more overlapping calls and the goroutine schedules the Go runtime "
         "would produce on its own are not explored",
+        "reorgs with a process death before every store write (real chain, real pool, fresh process restart) reuse C05's driver and monitor; only the pool clauses (executed set = transactions of the canonical chain, transactions of removed blocks pending) are verdicts of C17",
         "transaction expiry (growRing, one-minute ticker) does not fire within a run",
     ])
